@@ -23,7 +23,9 @@ Reading used here
   allocations as stored": an applied pin entry produces exactly one Track whose cid, type, max depth
   and allocations equal the stored entry's (and whose mode does, for well-formed pins, i.e. mode and
   depth agree); an applied unpin entry produces exactly one Untrack of that cid, and the cid is gone;
-  nothing else produces tracker calls.
+  nothing else produces tracker calls. Handing over is only meaningful in order: for one cid the tracker
+  must receive the instructions in commit order (`tracker_order`, checked where several entries are
+  applied back to back and the arrival order at the tracker is observed).
 -/
 import ClusterVerif.Model.C01
 namespace CV.C01
@@ -43,6 +45,10 @@ structure Obs where
   applied : Nat
   view : View
   calls : List Call
+  /-- the entries `first .. applied-1` were applied back to back and `calls` is what the tracker
+      received meanwhile, in ARRIVAL order -/
+  burst : Bool := false
+  first : Nat := 0
   deriving Repr
 
 /-- metadata is a map: compare pins with metadata in key order -/
@@ -83,8 +89,19 @@ def ackDurableOk (ops : List Op) (o : Obs) : Bool :=
 /-- a pin whose mode and depth agree (what every constructor of pins produces) -/
 def modeAgrees (p : Pin) : Bool := p.opts.mode == depthToMode p.depth
 
+/-- what identifies a hand-off: instruction, cid, type, depth, allocations -/
+def callKey : Call → Bool × Nat × PinType × Int × List Nat
+  | .track p => (true, p.cid, p.type, p.depth, p.allocs)
+  | .untrack p => (false, p.cid, p.type, p.depth, p.allocs)
+
+/-- the calls `ApplyTo` makes for the entries `first .. applied-1` -/
+def sentIn (ops : List Op) (o : Obs) : List Call := ((ops.drop o.first).take (o.applied - o.first)).map callOf
+
 def trackerOk (ops : List Op) (o : Obs) : Bool :=
-  if isAck o then
+  if o.burst then
+    -- several entries applied back to back: every one of them was handed over, nothing else
+    ((o.calls.map callKey).isPerm ((sentIn ops o).map callKey))
+  else if isAck o then
     match ops[o.applied - 1]?, o.view with
     | some (.pin p), .pins m =>
       (match o.calls, m.get p.cid with
@@ -99,6 +116,15 @@ def trackerOk (ops : List Op) (o : Obs) : Bool :=
     | _, _ => false
   else o.calls.isEmpty
 
+/-- the instructions the tracker receives for one cid, in order (true = track) -/
+def perCid (c : Nat) (l : List Call) : List Bool := (l.filter (fun x => x.cid == c)).map Call.isTrack
+
+/-- "handed to the local pin tracker": for every cid the tracker receives the instructions in commit
+    order (a Track overtaken by the Untrack of a later entry leaves the tracker pinning what the pinset
+    no longer has) -/
+def trackerOrderOk (ops : List Op) (o : Obs) : Bool :=
+  !o.burst || ((sentIn ops o).map Call.cid).all (fun c => perCid c o.calls == perCid c (sentIn ops o))
+
 /-- an entry that was applied by the peer's Raft without the FSM acknowledging it: the change was not made -/
 def appliedOk (o : Obs) : Bool := !(o.ev == .apply) || o.res == .ok || o.res == .noop
 
@@ -108,6 +134,7 @@ def clauses (ops : List Op) (trace : List Obs) : List (String × Bool) :=
     ("ack_visible", trace.all (ackVisibleOk ops)),
     ("ack_durable", trace.all (ackDurableOk ops)),
     ("tracker", trace.all (trackerOk ops)),
+    ("tracker_order", trace.all (trackerOrderOk ops)),
     ("applies", trace.all appliedOk) ]
 
 def holds (ops : List Op) (trace : List Obs) : Bool := (clauses ops trace).all (·.2)
